@@ -61,6 +61,28 @@ fn same_file(a: &Path, b: &Path) -> bool {
 /// entry file's text. For any other file of the package the positions are resolved here,
 /// where the text they refer to is at hand, and the file is named in the message.
 fn located_in(err: CompilationError, path: &Path, src: &str) -> CompilationError {
+    // Lowering and derive errors carry ranges into the same text.
+    if let CompilationError::Lower { diagnostics } = err {
+        let index = line_index::LineIndex::new(src);
+        let mut located = Diagnostics::new();
+        for diagnostic in diagnostics.iter() {
+            let position = match diagnostic.range() {
+                Some(range) => {
+                    let at = index.line_col(range.start());
+                    format!("{}:{}: ", at.line + 1, at.col + 1)
+                }
+                None => String::new(),
+            };
+            located.push(Diagnostic::new(
+                diagnostic.stage().clone(),
+                diagnostic.severity(),
+                format!("{}: {}{}", path.display(), position, diagnostic.message()),
+            ));
+        }
+        return CompilationError::Lower {
+            diagnostics: located,
+        };
+    }
     let CompilationError::Parser { diagnostics } = err else {
         return err;
     };
